@@ -11,7 +11,9 @@ BOUND = ("all 1-variable networks, all 256 (thorough) / sampled (quick) 2-variab
          "every state; restrict_petrinet_to_subspace for seeded subspaces (all subspaces when n <= 3) on every state of the subspace, also applied "
          "twice; percolate_network for every trap space (<= 40 seeded ones) with and without remove_constants; node_percolated_network / "
          "node_percolated_petri_net of every node after a seeded expansion history, for nodes with several predecessors also derived from the cached net of each "
-         "predecessor (parent_id) after reclaim_node_data; the hand-built part includes unions of 2-3 independent bistable modules (diamond-shaped diagrams)")
+         "predecessor (parent_id) after reclaim_node_data; the hand-built part includes unions of 2-3 independent bistable modules (diamond-shaped diagrams); "
+         "networks with identity inputs are percolated a second time with those inputs written as free inputs (no update function); network_to_petrinet is "
+         "repeated with the module's DEBUG switch on")
 RULE = "non-trivial = the network has >= 2 variables and at least one enabled transition in some state"
 CASE_TIMEOUT = 60.0
 
@@ -120,37 +122,75 @@ def check_with_info(case):
     traps = net.trap_spaces()
     if len(traps) > 40:
         traps = rng.sample(traps, 40)
-    graph = AsynchronousGraph(bn)
-    for t in traps:
-        pt = net.percolate(t)
-        for rc in (True, False):
-            pbn = percolate_network(bn, dict(t), graph if rng.random() < 0.5 else None, remove_constants=rc)
-            sub = oracle.Net.from_bn(pbn)
-            free = [v for v in net.names if v not in pt]
-            want_names = free if rc else net.names
-            if sorted(sub.names) != sorted(want_names):
-                out.append(fail("percolated_network_variables", "the percolated network is over exactly the variables left free (constants removed) / all variables (kept)",
-                                f"trap space {t} remove_constants={rc}", observed=sub.names, expected=sorted(want_names)))
-                continue
-            if rc:
-                ok = compare_moves(out, "percolated_network_dynamics", "the percolated network's transitions coincide with the original dynamics of the free variables on every state of the trap space",
-                                   f"percolate_network({t}, remove_constants=True)", net, net_moves_fn(sub), pt, free)
-            else:
-                ok = True
-                for s in net.states(net.mask(pt)):
-                    for i, v in enumerate(net.names):
-                        if sub.f(sub.idx[v], sub.state_of(net.state_dict(s))) != net.f(i, s):
-                            out.append(fail("percolated_network_dynamics", "the percolated network agrees with the original update functions on every state of the trap space",
-                                            f"percolate_network({t}, remove_constants=False) variable {v} state {net.state_dict(s)}"))
-                            ok = False
+
+    def percolation_block(bn_used, tag):
+        graph_used = AsynchronousGraph(bn_used)
+        for t in traps:
+            pt = net.percolate(t)
+            for rc in (True, False):
+                pbn = percolate_network(bn_used, dict(t), graph_used if rng.random() < 0.5 else None, remove_constants=rc)
+                sub = oracle.Net.from_bn(pbn)
+                free = [v for v in net.names if v not in pt]
+                want_names = free if rc else net.names
+                if sorted(sub.names) != sorted(want_names):
+                    out.append(fail("percolated_network_variables", "the percolated network is over exactly the variables left free (constants removed) / all variables (kept)",
+                                    f"{tag}trap space {t} remove_constants={rc}", observed=sub.names, expected=sorted(want_names)))
+                    continue
+                if rc:
+                    ok = compare_moves(out, "percolated_network_dynamics", "the percolated network's transitions coincide with the original dynamics of the free variables on every state of the trap space",
+                                       f"{tag}percolate_network({t}, remove_constants=True)", net, net_moves_fn(sub), pt, free)
+                else:
+                    ok = True
+                    for s in net.states(net.mask(pt)):
+                        for i, v in enumerate(net.names):
+                            if sub.f(sub.idx[v], sub.state_of(net.state_dict(s))) != net.f(i, s):
+                                out.append(fail("percolated_network_dynamics", "the percolated network agrees with the original update functions on every state of the trap space",
+                                                f"{tag}percolate_network({t}, remove_constants=False) variable {v} state {net.state_dict(s)}"))
+                                ok = False
+                                break
+                        if not ok:
                             break
-                    if not ok:
-                        break
-                for v in pt:
-                    if v not in sub.constant_vars() or sub.constant_vars()[v] != pt[v]:
-                        out.append(fail("percolated_network_constant", "fixed variables become constants with their fixed value", f"{t} variable {v}"))
-            if not ok:
-                break
+                    for v in pt:
+                        if v not in sub.constant_vars() or sub.constant_vars()[v] != pt[v]:
+                            out.append(fail("percolated_network_constant", "fixed variables become constants with their fixed value", f"{tag}{t} variable {v}"))
+                if not ok:
+                    break
+
+    percolation_block(bn, "")
+    # the same network with its identity inputs (x, x) written as FREE inputs (no update function): same dynamics, but percolate_network
+    # takes its other branch (inputs fixed by the space become constants) - for every value the space gives them
+    ident = [v for i, v in enumerate(net.names) if all(net.f(i, s) == ((s >> i) & 1) for s in range(net.N))]
+    if ident and not out:
+        keep = []
+        for ln in bn.to_aeon().splitlines():
+            w = ln.split()
+            if any(ln.startswith(f"${v}:") for v in ident) or (len(w) == 3 and w[0] == w[2] and w[0] in ident):
+                continue          # the input's own rule and its self-regulation: a free input has neither
+            keep.append(ln)
+        bn_free = BooleanNetwork.from_aeon("\n".join(keep))
+        if sorted(bn_free.variable_names()) != sorted(net.names):
+            bn_free = None        # an input nobody reads is not declared by the remaining lines
+        if bn_free is not None:
+            info["free_input_variants"] = len(ident)
+            percolation_block(bn_free, "free inputs " + ",".join(ident) + ": ")
+    # module-level debug switch: the translation must not depend on it
+    if not out:
+        import contextlib, io
+        import biobalm.petri_net_translation as pnt
+        old_dbg = pnt.DEBUG
+        try:
+            pnt.DEBUG = True
+            with contextlib.redirect_stdout(io.StringIO()):
+                pn_dbg = network_to_petrinet(bn)
+        finally:
+            pnt.DEBUG = old_dbg
+        if sorted(map(str, pn_dbg.nodes)) != sorted(map(str, pn.nodes)) or sorted(map(str, pn_dbg.edges)) != sorted(map(str, pn.edges)):
+            compare_moves(out, "petri_net_transition_mismatch", "a transition changing a variable up/down is enabled exactly when the update function disagrees with the "
+                          "current value in that direction (also with the module's DEBUG output switched on)", "network_to_petrinet with petri_net_translation.DEBUG = True",
+                          net, lambda d: pn_moves(pn_dbg, d), {}, net.names)
+            if not out:
+                out.append(fail("petri_net_depends_on_debug_switch", "the translation does not depend on the DEBUG output switch",
+                                f"{len(pn_dbg.nodes)} nodes / {len(pn_dbg.edges)} edges with DEBUG vs {len(pn.nodes)} / {len(pn.edges)} without"))
     # the per-node accessors of a diagram, with whatever caches the history left behind
     sd = make_sd(case["bnet"])
     sd, _ = run_history(sd, case["history"])
